@@ -1630,7 +1630,12 @@ def c17_closure(tier, seed):
         ring['CR'] = 'rule cr{ reactant r1{ C labeled c1 C. labeled c2 single bond to c1 } increase number of radical (c1) increase number of radical (c2) break bond (c1, c2) }'
         rules['RC'] = '[CX3:1]-[CX4:2]>>[C:1].[C:2]'
         rules['CR'] = '[CX4:1]-[CX3:2]>>[C:1].[C:2]'
-        for rk, spellings in (('CH', ['CCO', 'OCC', 'C(O)C']), ('OH', ['OCC', 'CCO']), ('CH', ['CO', 'OC']), ('RC', ['C[CH2]', '[CH2]C']), ('CR', ['C[CH2]', '[CH2]C'])):
+        # a pattern with automorphisms (three-membered ring) whose edit is NOT symmetric under them: every mapping of the same three atoms breaks another bond
+        ring['RO3'] = ('rule ro{ reactant r1{ C labeled c1 C labeled c2 single bond to c1 C labeled c3 single bond to c2 ringbond c3 single bond to c1 } '
+                       'break bond (c1, c2) increase number of radical (c1) increase number of radical (c2) }')
+        rules['RO3'] = '[C:1]1-[C:2]-[C:3]-1>>[C:1]-[C:3]-[C:2]'
+        for rk, spellings in (('CH', ['CCO', 'OCC', 'C(O)C']), ('OH', ['OCC', 'CCO']), ('CH', ['CO', 'OC']), ('RC', ['C[CH2]', '[CH2]C']), ('CR', ['C[CH2]', '[CH2]C']),
+                              ('RO3', ['CC1CC1', 'C1CC1C', 'OC1CC1', 'C1CC1'])):
             # ONE rule list object for all the calls of a row: the generator replaces its entries by parsed rule objects in place, so the later
             # calls run the very rule object the first call built
             shared_rules = [ring[rk]]
